@@ -5,6 +5,7 @@ Source reference representation data structure.
 # pylint: disable=W0603
 
 import os
+import tokenize
 from dataclasses import dataclass
 from typing import Tuple
 import inspect
@@ -76,13 +77,15 @@ class SourceRef:
             stat = os.stat(path)
             stamp = (path, stat.st_mtime_ns, stat.st_size)
             if filename not in USED_SOURCES or _SOURCE_PATHS.get(filename) != stamp:
-                with open(path, encoding="utf-8") as file:
+                # tokenize.open honours a byte order mark and a coding cookie, as
+                # the import system did when it loaded the file.
+                with tokenize.open(path) as file:
                     src = file.read()
                 USED_SOURCES[filename] = src
                 _SOURCE_PATHS[filename] = stamp
             else:
                 src = USED_SOURCES[filename]
-        except OSError:
+        except (OSError, SyntaxError, UnicodeDecodeError):
             return 0, 0
 
         # Only "\n" ends a line here (the file was read with universal newlines):
